@@ -118,4 +118,20 @@ def verifyDense (H : Hashers) (proof : List Hash) (root : Hash) (idx : Nat) (lea
     (if acc.2 % 2 = 1 then hashNode H elem acc.1 else hashNode H acc.1 elem, acc.2 / 2)) (leaf, idx)
   r.1 == root
 
+/-! ### reference hashers for the correspondence driver (a 128-bit mixing hash; not cryptographic, not used by any theorem) -/
+
+def mix64 (seed : UInt64) (bs : Bytes) : UInt64 :=
+  bs.foldl (fun h b => (h ^^^ b.toUInt64) * 1099511628211 + 0x9E3779B97F4A7C15) seed
+
+def digest (bs : Bytes) : Bytes :=
+  let a := mix64 14695981039346656037 bs
+  let b := mix64 0x2545F4914F6CDD1D (0x5a :: bs)
+  toBE 8 a.toNat ++ toBE 8 b.toNat
+
+def refHashers : Hashers := { hData := fun v => digest (1 :: v), hNode := fun l r => digest (2 :: (l ++ r)) }
+
+/-- bits of a byte string, most significant bit first (`key_to_path`) -/
+def bitsOf (bs : Bytes) : List Bool :=
+  bs.flatMap fun b => (List.range 8).map fun i => (b.toNat / 2 ^ (7 - i)) % 2 = 1
+
 end Mel.Merkle
